@@ -61,6 +61,19 @@ class OpPolicy(decode.MachinePolicy):
             h.writes.append((name, st.cond))
             st.heap[key] = args[1]
             return V(NONE)
+        if h.abstract_shift and qn in ('shift_c', 'shift') and getattr(getattr(target, 'module', None), 'name', '') == 'armulator.armv6.shift':
+            # compositional: the shifter is decided on its own (C17-A); here its arguments are recorded and its
+            # result is a pair of fresh symbols shared with the reference
+            h.shift_calls.append((qn, list(args), st.cond))
+            k = len(h.shift_calls) - 1
+            if k >= 1:
+                raise Unsupported('more than one shifter application in one body')
+            res = self.sym('OP2', 32)
+            car = self.sym('OP2C', 1)
+            return V(Tup([V(res), V(car)])) if qn == 'shift_c' else V(res)
+        if qn == 'Registers.get_pc':
+            h.reads.append(('pc', st.cond))
+            return V(self.sym('R.pc', 32))
         if qn == 'ArmV6.condition_passed':
             return V(Int([self.B.var('COND')]))
         if qn == 'ArmV6.integer_zero_divide_trapping_enabled':
@@ -124,7 +137,7 @@ class OpHarness:
     """One opcode class, ready to interpret.  `align` maps a register role to the bit offset it is
     added at (variable interleaving only; semantics unaffected)."""
 
-    def __init__(self, repo, fr, clsname, align=None, products=2, fixed=None):
+    def __init__(self, repo, fr, clsname, align=None, products=2, fixed=None, top_roles=(), extra_words=(), abstract_shift=False):
         self.repo = repo
         self.fr = fr
         self.clsname = clsname
@@ -142,6 +155,11 @@ class OpHarness:
         self.dom = 1
         self.fieldsyms = {}
         self.fixed = dict(fixed or {})
+        self.top_roles = tuple(top_roles)
+        self.extra_words = tuple(extra_words)
+        self.datafields = []
+        self.abstract_shift = abstract_shift
+        self.shift_calls = []
         self._alloc(align or {})
 
     # -- variable order and field models ------------------------------------------------------
@@ -192,6 +210,8 @@ class OpHarness:
                 self.fields[f] = Value(cases)
                 self.dom = B.AND(self.dom, cover)
                 self.fieldsyms[f] = (sel, order)
+            elif isinstance(r, Iv) and r.finite() and r.lo >= 0 and int(r.hi).bit_length() > 8:
+                self.datafields.append((f, int(r.hi).bit_length(), r))
             elif isinstance(r, Iv) and r.finite() and r.lo >= 0:
                 w = max(1, int(r.hi).bit_length())
                 s = sym_int(B, 'F.' + f, w)
@@ -206,10 +226,18 @@ class OpHarness:
                 self.fieldsyms[f] = (s, None)
             else:
                 raise AnalysisError('%s.%s: no finite decode range (%r)' % (self.clsname, f, r))
+        for r in self.top_roles:
+            for k in reversed(range(32)):
+                B.var_index('R.%s[%d]' % (r, k))
         for k in reversed(range(32)):
             B.var_index('processor.registers.cpsr.value[%d]' % k)
         # data words interleaved
-        words = [('R.' + r, 32, align.get(r, 0)) for r in regroles]
+        words = [('R.' + r, 32, align.get(r, 0)) for r in regroles if r not in self.top_roles]
+        words += [('R.' + r, 32, 0) for r in self.extra_words]
+        if self.abstract_shift:
+            B.var_index('OP2C[0]')
+            words += [('OP2', 32, 0)]
+        words += [('F.' + f, w, 0) for f, w, _ in self.datafields]
         words += [(p, 64, 0) for p in self.pools['P']] + [(q, 33, 0) for q in self.pools['Q']]
         slots = []
         for name, w, off in words:
@@ -218,6 +246,12 @@ class OpHarness:
                 slots.append((pos, name, k))
         for pos, name, k in sorted(slots, key=lambda s: (-s[0], s[1])):
             B.var_index('%s[%d]' % (name, k))
+        for f, w, r in self.datafields:
+            sy = sym_int(B, 'F.' + f, w)
+            self.fields[f] = V(sy)
+            self.fieldsyms[f] = (sy, None)
+            if int(r.hi) != (1 << w) - 1:
+                self.dom = B.AND(self.dom, B.NOT(it.i_lt(it.const(int(r.hi)), sy)))
         for i, r in enumerate(regroles):
             idx = i + 1
             self.fields[r] = V(it.const(idx))
